@@ -291,6 +291,42 @@ func c15Gen(rng *rand.Rand, tier string, i int) *Sexp {
 		return idx[rng.Intn(len(idx))]
 	}
 	c := L()
+	if i%8 == 3 {
+		// directed family: a base set with SPARE CAPACITY (built with duplicates, or by inserting a value
+		// already present, or by an overlapping union) is extended several times from the same base by
+		// operations that add only values above / below / inside it — every earlier result is re-read
+		// after each step, so an operation that appends into the base's backing array is seen
+		lo := rng.Intn(3)
+		base := []*Sexp{N(lo), N(lo), N(lo + 1)}
+		if rng.Intn(2) == 0 {
+			base = append(base, N(lo+1), N(lo+2))
+		}
+		c.List = append(c.List, LA("newSet", base...))
+		kinds = append(kinds, 's')
+		b := 0
+		if rng.Intn(3) == 0 {
+			c.List = append(c.List, LA("insert", N(0), N(lo)))
+			kinds = append(kinds, 's')
+			b = 1
+		}
+		for k := 0; k < 2+rng.Intn(3); k++ {
+			switch rng.Intn(3) {
+			case 0:
+				c.List = append(c.List, LA("newSet", N(lo+5+k), N(lo+7+k)))
+				kinds = append(kinds, 's')
+				c.List = append(c.List, LA("union", N(b), N(len(kinds)-1)))
+				kinds = append(kinds, 's')
+			case 1:
+				c.List = append(c.List, LA("insert", N(b), N(lo+4+k)))
+				kinds = append(kinds, 's')
+			default:
+				c.List = append(c.List, LA("newSet", N(lo-3-k)))
+				kinds = append(kinds, 's')
+				c.List = append(c.List, LA("union", N(len(kinds)-1), N(b)))
+				kinds = append(kinds, 's')
+			}
+		}
+	}
 	for len(c.List) < nOps {
 		r := rng.Intn(100)
 		s, m := pick('s'), pick('m')
